@@ -8,7 +8,7 @@ HARNESS = os.path.join(ROOT, 'harness')
 BUILD = os.path.join(ROOT, 'build')
 EVID = os.path.join(ROOT, 'evidence')
 REPLAYS = os.path.join(ROOT, 'replays')
-REPO = '/repo'
+REPO = os.environ.get('VERIF_REPO', '/repo')   # bin/sweep_seeds.sh points this at a private copy
 
 GO125 = '/root/go/pkg/mod/golang.org/toolchain@v0.0.1-go1.25.0.linux-amd64/bin/go'
 
